@@ -795,6 +795,15 @@ class G(object):
                         if not (info['kwonly'] or info['kwonly_required']):
                             info['kwonly_required'] = ['scale_amount']
                             sig.insert(1, 'scale_amount')
+            if kind == 'noself' and info['vararg']:
+                # called through the instance: the first positional parameter (if any) receives it, exactly like `self`;
+                # it must not be passed again, and its name (renamable, documented) must not be used as a keyword
+                if info['posonly']:
+                    info['first'] = info['posonly'].pop(0)
+                elif info['pos']:
+                    info['first'] = info['pos'].pop(0)
+                elif info['defaulted']:
+                    info['first'] = info['defaulted'].pop(0)
             if sig and sig[-1] == '*':
                 sig.pop()
             if kind == 'static':
